@@ -12,3 +12,8 @@ s = Constant(mesh)
 a = s * u * v * dx + inner(dot(K, grad(u)), grad(v)) * dx + dot(b, grad(u)) * v * dx
 L = K[2, 1] * v * ds + b[2] * v * dx + s * v * dx
 forms = [a, L]
+# non-square tensor constants (row-major flattening is not symmetric in the extents)
+W = Constant(mesh, shape=(2, 3))
+T = Constant(mesh, shape=(3, 2))
+M = (W[0, 2] + W[1, 0] + W[1, 2]) * v * dx + (T[2, 1] + T[0, 1] + T[2, 0]) * v * ds
+forms = [a, L, M]
